@@ -63,6 +63,10 @@ func skeletons(tier string, rng *rand.Rand) []string {
 }
 
 func parseJobs(harness, prefix string, tier string, seed int64, extra map[string]string) []*engine.Job {
+	return parseJobsN(harness, prefix, tier, seed, extra, tierN(tier, 6, 7), tierN(tier, 1400, 40000))
+}
+
+func parseJobsN(harness, prefix string, tier string, seed int64, extra map[string]string, maxLen, nHoles int) []*engine.Job {
 	rng := rand.New(rand.NewSource(seed + 2))
 	var jobs []*engine.Job
 	mk := func(id string, params map[string]string) {
@@ -73,7 +77,6 @@ func parseJobs(harness, prefix string, tier string, seed int64, extra map[string
 			Docs: map[string]*engine.DocCfg{"doc": docCfg(1, 1, []string{"a"}, engine.KNil|engine.KFloat)}, MaxPaths: 3000000, MaxDepth: 300})
 	}
 	// (a) fully symbolic strings, split by the class of the first two bytes for parallelism
-	maxLen := tierN(tier, 6, 7)
 	ranges := []string{"0-35", "36-36", "37-45", "46-46", "47-63", "64-64", "65-90", "91-91", "92-127"}
 	for n := 1; n <= maxLen; n++ {
 		for _, cfg := range []string{"", "funcs"} {
@@ -110,7 +113,7 @@ func parseJobs(harness, prefix string, tier string, seed int64, extra map[string
 		hs = append(hs, hole{s, nil})
 	}
 	rng.Shuffle(len(hs), func(i, j int) { hs[i], hs[j] = hs[j], hs[i] })
-	n1 := tierN(tier, 1400, 40000)
+	n1 := nHoles
 	if len(hs) > n1 {
 		hs = hs[:n1]
 	}
@@ -144,9 +147,11 @@ func parseJobs(harness, prefix string, tier string, seed int64, extra map[string
 	return jobs
 }
 
-func parseBounds(tier string) map[string]interface{} {
+func parseBounds(tier string) map[string]interface{} { return parseBoundsN(tier, tierN(tier, 6, 7)) }
+
+func parseBoundsN(tier string, maxLen int) map[string]interface{} {
 	return map[string]interface{}{
-		"strings": fmt.Sprintf("(a) every string of 1..%d symbolic ASCII bytes (all 128^n byte values per length); (b) skeletons (corpus paths, failing paths, the suite's own paths incl. non-ASCII ones, <= 40 bytes) with one symbolic ASCII byte at a position (thorough: all positions and sampled pairs)", tierN(tier, 4, 5)),
+		"strings": fmt.Sprintf("(a) every string of 1..%d symbolic ASCII bytes (all 128^n byte values per length); (b) skeletons (corpus paths, failing paths, the suite's own paths incl. non-ASCII ones, <= 40 bytes) with one symbolic ASCII byte at a position (thorough: all positions and sampled pairs)", maxLen),
 		"configs": "none / recording functions / functions + accessor mode",
 		"bounds":  "call depth 300 and 5e6 SSA steps per path are unwinding assertions: exceeding the call depth is reported as a violation candidate (confirmed natively by the crash), fuel exhaustion as inconclusive",
 		"outside": "symbolic non-ASCII bytes; more than 2 free bytes in strings longer than 5",
@@ -179,9 +184,10 @@ func init() {
 			if err != nil {
 				return []*engine.Job{{ID: "c17-grammar-unreadable", Harness: "zzH_missing", Params: map[string]string{"error": err.Error()}}}
 			}
-			return parseJobs("zzH_C17", "c17-", tier, seed, map[string]string{"peg": peg, "start": "expression", "accept_action": "0"})
+			// the joint run (real parser + grammar interpreter) costs ~5x a plain Parse: one byte less than C02
+			return parseJobsN("zzH_C17", "c17-", tier, seed, map[string]string{"peg": peg, "start": "expression", "accept_action": "0"}, tierN(tier, 5, 6), tierN(tier, 900, 30000))
 		},
-		Bounds:       parseBounds,
+		Bounds:       func(tier string) map[string]interface{} { return parseBoundsN(tier, tierN(tier, 5, 6)) },
 		Stubs:        byteStubs,
 		Assumptions:  append([]string{"the PEG file reader (cmd/verif/peg.go) and the PEG interpreter (harness/pegspec.go) implement standard PEG semantics of the pointlander/peg notation; the documented semantic restrictions beyond the grammar are implemented by the action bodies, which are compared textually between jsonpath.peg and Execute()"}, commonAssumptions...),
 		ExpectLabels: []string{"same-trace-length", "same-trace", "rejected-by-grammar-is-an-error", "error-position-is-end-of-accepted-prefix", "near-is-rest-of-path", "parsed-implies-derivable"},
@@ -226,7 +232,6 @@ func c16Keys() []string {
 }
 
 func c16Jobs(tier string, seed int64) []*engine.Job {
-	rng := rand.New(rand.NewSource(seed + 16))
 	var jobs []*engine.Job
 	n := 0
 	add := func(key, holepos, near, nearpos, pos string) {
@@ -249,17 +254,13 @@ func c16Jobs(tier string, seed int64) []*engine.Job {
 		for pi, pos := range []string{"root", "nested", "filter"} {
 			// concrete key
 			add(k, "", nears[(pi)%len(nears)], "", pos)
-			if tier != "thorough" && pi > 0 && rng.Intn(2) == 0 {
-				continue
-			}
+
 			// one symbolic byte at each ASCII position (the sibling keeps the concrete key)
 			for i := 0; i < len(k); i++ {
 				if k[i] >= 0x80 {
 					continue
 				}
-				if tier != "thorough" && rng.Intn(3) != 0 && len(k) > 2 {
-					continue
-				}
+
 				add(k, fmt.Sprint(i), k, "", pos)
 				// the same symbolic byte in the key and in a sibling that differs elsewhere
 				add(k, fmt.Sprint(i), nears[0], fmt.Sprint(i), pos)
